@@ -16,7 +16,7 @@ import (
 func init() {
 	Register(&Spec{
 		ID:          "C20",
-		Explanation: "Decides structural necessary conditions of faithful, history-independent text rendering: (R1) the escape predicate of strquote touches its byte only through comparisons with constants, so it is evaluated over all 256 byte values by constant folding on the SSA form: it must hold for the double quote, the backslash, every byte below 0x20 and every byte from 0x7f, every case constant of Append's escape switch must lie inside the set (a case the guard excludes is dead code contradicting the author's belief), and every byte in the set is emitted through an escape sequence; (R2) no error of the schema-driven marshal functions or of the capnp accessors they call is dropped (named exemptions for trusted default values); (R3) a message obtained from Unmarshal/Decode whose contents are cached beyond the call (nodemap) has its traversal limit lifted or re-armed before it is stored; (R4) the schema walker accesses a field only for the active union member, uses the accessor width and offset scale of the schema type table with the default XORed in, renders every Text/Data through strquote.Append on a scratch buffer reset to length 0; (R6) nodemap.UseRegistry replaces the node cache unconditionally (nodes of the previous registry do not answer later lookups). Does NOT decide injectivity of the whole rendering or float formatting.",
+		Explanation: "Decides structural necessary conditions of faithful, history-independent text rendering: (R1) the escape predicate of strquote touches its byte only through comparisons with constants, so it is evaluated over all 256 byte values by constant folding on the SSA form: it must hold for the double quote, the backslash, every byte below 0x20 and every byte from 0x7f, every case constant of Append's escape switch must lie inside the set (a case the guard excludes is dead code contradicting the author's belief), and every byte in the set is emitted through an escape sequence; (R2) no error of the schema-driven marshal functions or of the capnp accessors they call is dropped (named exemptions for trusted default values); (R3) a message obtained from Unmarshal/Decode whose contents are cached beyond the call (nodemap) has its traversal limit lifted or re-armed before it is stored; (R4) the schema walker accesses a field only for the active union member, uses the accessor width and offset scale of the schema type table with the default XORed in, renders every Text/Data through strquote.Append on a scratch buffer reset to length 0; (R6) nodemap.UseRegistry replaces the node cache unconditionally (nodes of the previous registry do not answer later lookups). (R2v) the value of Struct.Ptr is used only where its error was tested (an unreadable field is not rendered as its default); (R2t) a detected error is not lost. Does NOT decide injectivity of the whole rendering or float formatting.",
 		Run:         runC20,
 	})
 }
@@ -26,6 +26,10 @@ func runC20(ctx *Ctx) {
 	ruleEscapeSet(ctx, "C20-R1")
 	ruleResetComplete(ctx, "C20-R3u", "internal/nodemap", "Map", "UseRegistry", nil)
 	ruleRegistrySwitchDropsCache(ctx, "C20-R6")
+	// an unreadable field must not be rendered as its default: the value of
+	// Struct.Ptr is used only where its error was tested (shared with C01-R3)
+	ruleCheckedResultsIn(ctx, "C20-R2v", func(n string) bool { return strings.HasPrefix(n, "encoding/text.") })
+	ruleDetectedErrorNotLost(ctx, "C20-R2t", func(n string) bool { return strings.HasPrefix(n, "encoding/text.") }, detectedErrorExempt)
 	ruleErrorsNotDropped(ctx, "C20-R2", []string{"encoding/text"}, nil, func(callee string) bool {
 		if strings.HasPrefix(callee, "encoding/text.(*errWriter).") {
 			return false // sticky writer: the first error is latched in errWriter.err and returned by Encode
